@@ -866,7 +866,8 @@ class TermCanvas(Canvas):
 
                 self.push_char(char, x, y)
 
-                self.is_rotten_cursor = False
+                # on a one-column terminal the wrapped character is in the last column again
+                self.is_rotten_cursor = x >= self.width
         else:
             if x + 1 < self.width:
                 x += 1
